@@ -136,6 +136,30 @@ theorem C11_lifecycle_never_started (fs : Bool) (ds r dstop : List St) (a b : Bo
     (Life.mk false ds a b r dstop fs).events = [] := by
   cases fs <;> simp [Life.events, Life.reports, run, step, transition] <;> decide
 
+/-- a component shared by two instances, driven by the service: whatever the component reports, in
+whatever order the instances are started and stopped, and whether or not its shutdown fails, the
+events of BOTH instances follow the documented machine -/
+theorem C11_shared_life_doc (l : SharedLife) :
+    DocPath .none l.eventsX ∧ DocPath .none (l.eventsY StatusTable.ringCap) :=
+  ⟨C11_events_doc l.reportsX, C11_events_doc (l.reportsY StatusTable.ringCap)⟩
+
+/-- while the start-up history fits the ring, the late instance is handed exactly the history the first
+one saw (every status the component reported is delivered to every instance it represents) -/
+theorem C11_shared_life_replay_complete (l : SharedLife) (h : l.duringStart.length + 1 ≤ StatusTable.ringCap) :
+    l.ringAtAttach StatusTable.ringCap = St.starting :: l.duringStart := by
+  simp only [SharedLife.ringAtAttach, lastN, List.length_cons]
+  have : l.duringStart.length + 1 - StatusTable.ringCap = 0 := by omega
+  rw [this]; rfl
+
+/-- the instances of one shared component can nevertheless END in different statuses when its shutdown
+fails: the instance whose `Shutdown` call did the work keeps `PermanentError`, the other one is taken on
+to `Stopped` by the graph's automatic reports because its own `Shutdown` call returned nil.  Every status
+the component reported was delivered to both — recorded as an observation, not a violation. -/
+theorem C11_shared_life_final_may_differ :
+    let l : SharedLife := ⟨true, true, [], true, [], true, [], true⟩
+    l.eventsX = [.starting, .ok, .stopping, .permanent] ∧
+    l.eventsY StatusTable.ringCap = [.starting, .ok, .stopping, .permanent, .stopping, .stopped] := by decide
+
 /-! ## illegal reports are no-ops; automatic OK only from Starting -/
 
 theorem C11_illegal_noop (cur s : St) (h : allowed cur s = false) : step cur (.status s) = (cur, Option.none) := by
